@@ -1,0 +1,27 @@
+//go:build verif
+
+package common_listener
+
+// Contracts checked by /verif (vcgo). Comment-only: no executable code.
+// C01: every annotation among the modifiers of a member is recorded, in order.
+
+//@ spec IsAnnModifier(m Node) bool := Child(m, "classOrInterfaceModifier") != nil && IsKind(Kid(Child(m, "classOrInterfaceModifier"), 0), "AnnotationContext")
+
+// one modifier: its annotation, if it is one, is appended; nothing else changes
+//@ func BuildAnnotationForMethod
+//@ requires context != nil && method != nil
+//@ modifies *method
+//@ ensures IsAnnModifier(context) ==> len((*method).Annotations) == old(len((*method).Annotations)) + 1 && Extends((*method).Annotations, old((*method).Annotations), 1)
+//@ ensures !IsAnnModifier(context) ==> (*method).Annotations == old((*method).Annotations)
+//@ ensures (*method).Name == old((*method).Name) && (*method).ReturnType == old((*method).ReturnType) && (*method).IsConstructor == old((*method).IsConstructor)
+
+//@ spec rec NAnnMods(b Node, n int) int := n <= 0 ? 0 : NAnnMods(b, n - 1) + (IsAnnModifier(ChildN(b, "modifier", n - 1)) ? 1 : 0)
+
+//@ func BuildAnnotationsForMember
+//@ requires method != nil
+//@ modifies *method
+//@ ensures (IsKind(bodyDeclaration, "ClassBodyDeclarationContext") || IsKind(bodyDeclaration, "InterfaceBodyDeclarationContext")) ==>
+//@    len((*method).Annotations) == old(len((*method).Annotations)) + NAnnMods(bodyDeclaration, Count(bodyDeclaration, "modifier"))
+//@ ensures (*method).Name == old((*method).Name) && (*method).ReturnType == old((*method).ReturnType) && (*method).IsConstructor == old((*method).IsConstructor)
+//@ loop 1 invariant len((*method).Annotations) == old(len((*method).Annotations)) + NAnnMods(bodyDeclaration, #i)
+//@ loop 1 invariant (*method).Name == old((*method).Name) && (*method).ReturnType == old((*method).ReturnType) && (*method).IsConstructor == old((*method).IsConstructor)
